@@ -169,6 +169,43 @@ func cmdCheck(args []string) int {
 		}(i, j)
 	}
 	jwg.Wait()
+	// quiet retry: an obligation without an answer is re-tried with the machine to itself
+	// (two at a time) and three times the limit before it is reported; solver time under
+	// the load of the parallel phase is not evidence about the code
+	{
+		type retry struct{ ji, oi int }
+		var rs []retry
+		for ji := range jobs {
+			for oi, x := range allRes[ji] {
+				if x != nil && !x.Obl.Cover && x.Status == "noanswer" {
+					rs = append(rs, retry{ji, oi})
+				}
+			}
+		}
+		if len(rs) > 0 && len(rs) <= 24 {
+			sem := make(chan struct{}, 2)
+			var rwg sync.WaitGroup
+			for _, r := range rs {
+				rwg.Add(1)
+				sem <- struct{}{}
+				go func(r retry) {
+					defer rwg.Done()
+					defer func() { <-sem }()
+					t := tmo
+					if sp := e.specs.funcs[jobs[r.ji].key]; sp != nil && sp.Timeout > t {
+						t = sp.Timeout
+					}
+					old := allRes[r.ji][r.oi]
+					nr := solveOne(jobs[r.ji].g, old.Obl, dir, fmt.Sprintf("r%d_%d", r.ji, r.oi), 3*t)
+					nr.Ms += old.Ms
+					if nr.Status != "noanswer" || nr.Candidate != nil {
+						allRes[r.ji][r.oi] = nr
+					}
+				}(r)
+			}
+			rwg.Wait()
+		}
+	}
 	for i, j := range jobs {
 		rep.add(e, j.g, j.key, allRes[i])
 	}
